@@ -58,6 +58,9 @@ def run(ctx, obs):
             n = selection_pairing(ctx, obs, q)
             if n == 0:
                 obs.unk('AXIS-pair', q, 'selection on a measurements axis', 'no selection variable recognised')
+            if m.startswith('subset'):
+                from ..rules.containers import selection_consults_descriptor
+                selection_consults_descriptor(ctx, obs, q)
     for cls in ('Dataset', 'TemporalDataset'):
         n = stable_sorts(ctx, obs, D + cls + '.sort_by')
         if n == 0:
